@@ -5,7 +5,8 @@ PROP = dict(
     lean_module="AbraProofs.Properties.C14",
     required_theorems=["C14_patCompare_correct", "C14_patBind_correct", "C14_let_destructuring",
                        "C14_match_takes_first_pass", "C14_match_selects_first_partial", "C14_d27_regression",
-                       "C14_let_accepted_binds", "C14_let_binds_first_combination", "C14_d103_regression"],
+                       "C14_let_accepted_binds", "C14_let_binds_first_combination", "C14_let_destructuring", "C14_d103_regression",
+                       "C14_orfree_is_chain"],
     harness_bin="c14",
     mismatch_is_violation=True,
     rule="(scrutinee type, accepted arm list, value) triples over the universe of C12 (harness/src/patuniv.rs): 420 (quick) / "
@@ -13,7 +14,7 @@ PROP = dict(
          "fields in shuffled order, made acceptable (unreachable arms dropped, closed with a wildcard if needed); every value of "
          "the finite representative domain up to 5 (quick) / 24 (thorough) per case, at least one per arm; the compiled program "
          "computes `1000 + match s { pat_k -> { println(\"x=\" .. x)…; k } }` so the arm taken, every bound variable and a leaked "
-         "stack slot are observed; plus 150 / 3000 `let` and `for` destructuring programs; compared with the Lean model of the "
+         "stack slot are observed; plus 150 / 3000 attempts at plain `let` and `for` destructuring programs (wildcards and bindings in tuple / struct patterns; only the draws of a tuple or struct type run, about half: 75-85 in the quick tier); compared with the Lean model of the "
          "emitted code run on the model VM; spec oracle: Rust reference (first matching arm, bindings of the first matching "
          "alternative); the shapes of the repaired defects D27, D31, D46, D47 are unconditionally in the main stream and their original inputs (incl. the "
          "compile hang, in a child process with a time limit, re-run alone before a timeout counts) are hard regression checks: a wrong output is a spec failure; "
